@@ -441,11 +441,44 @@ type vkLKWorld struct {
 	trans     int
 	states    []string
 	occHeldAt map[int]bool // caller idx -> the occupant held the slot when it arrived
+	fails     *vkLKFailStore
+}
+
+// vkLKFailStore is the shared store the resolver publishes RFC 9520 zone failures to; it only records.
+type vkLKFailStore struct {
+	mu    sync.Mutex
+	zones []string
+}
+
+func (s *vkLKFailStore) Get(*dns.Msg) (*dns.Msg, bool)               { return nil, false }
+func (s *vkLKFailStore) SetFromResponse(*dns.Msg, bool, time.Time) {}
+func (s *vkLKFailStore) ClearZoneFailure(dns.Question, string)     {}
+func (s *vkLKFailStore) RecordZoneFailure(q dns.Question, zone string) {
+	s.mu.Lock()
+	s.zones = append(s.zones, zone+" (question "+q.Name+")")
+	s.mu.Unlock()
+}
+
+func (s *vkLKFailStore) recorded() []string {
+	s.mu.Lock()
+	defer s.mu.Unlock()
+	return append([]string{}, s.zones...)
 }
 
 type vkLKHarnessErr struct{ msg string }
 
 func (e *vkLKHarnessErr) Error() string { return e.msg }
+
+// vkLKSlotLeak: for vkLKLeakHold without interruption the upstream-concurrency semaphore held the same
+// number of tokens, more than there were attempts reading from an authority, and the moment it is
+// reported every goroutine of the world is parked. An attempt between "token taken" and "reading" is
+// runnable for microseconds; a token that outlives every attempt by seconds has nobody left to hand it
+// back: a leaked limiter slot (reproduced on fresh resolvers before it is reported).
+type vkLKSlotLeak struct{ msg string }
+
+func (e *vkLKSlotLeak) Error() string { return e.msg }
+
+const vkLKLeakHold = 4 * time.Second
 
 func vkLKNewWorld(sc vkLKScenario, T time.Duration) (*vkLKWorld, error) {
 	if err := vkLKStartServers(); err != nil {
@@ -463,6 +496,9 @@ func vkLKNewWorld(sc vkLKScenario, T time.Duration) (*vkLKWorld, error) {
 	}
 	w.base = pre
 	w.r = vkLKNewResolver(vkLKCfg())
+	w.fails = &vkLKFailStore{}
+	var st middleware.Store = w.fails
+	w.r.store.Store(&st)
 	switch sc.Cfg {
 	case "std":
 	case "capZ":
@@ -519,6 +555,11 @@ func vkLKCallerRun(r *Resolver, c *vkLKCaller, servers *authority.Servers) {
 	ctx, work := middleware.EnsureRecursionWork(ctx, r.workPolicy)
 	rs := &resolveState{req: c.req, servers: servers, level: 1, requestID: c.req.Id, work: work}
 	resp, err := r.groupLookup(ctx, rs, c.req, servers, c.owned)
+	if err != nil {
+		// what resolve() does with a failed lookup (not minimised): the real handleLookupError decides
+		// whether this caller publishes a zone failure to the shared store (recorded by vkLKFailStore)
+		resp, err = r.handleLookupError(ctx, err, rs, c.req, false)
+	}
 	middleware.FinishRecursionWork(ctx)
 	c.resp, c.err = resp, err
 	c.returned.Store(true)
@@ -635,6 +676,8 @@ func (w *vkLKWorld) kindOf(srv int) string {
 func (w *vkLKWorld) settle() error {
 	limit := time.Now().Add(vkLKSafety)
 	streak, lastSig, why := 0, "", ""
+	var heldSince time.Time // since when: all parked, same signature, slots > readers
+	heldL := 0
 	for spin := 0; ; spin++ {
 		if spin > 0 {
 			if spin < 8 {
@@ -646,12 +689,17 @@ func (w *vkLKWorld) settle() error {
 		if time.Now().After(limit) {
 			s := w.snap()
 			m, o, t := w.liveCounts()
-			return &vkLKHarnessErr{fmt.Sprintf("settle timeout in %s step %d: %s; slots=%d live(main=%d occ=%d tag=%d) goroutines: %s",
-				w.sc, w.step, why, len(w.r.maxConcurrent), m, o, t, s.sig)}
+			return &vkLKHarnessErr{fmt.Sprintf("settle timeout in %s step %d: %s [held %v]; slots=%d live(main=%d occ=%d tag=%d) goroutines: %s",
+				w.sc, w.step, why, !heldSince.IsZero(), len(w.r.maxConcurrent), m, o, t, s.sig)}
 		}
 		s := w.snap()
 		if !s.blocked {
 			streak, why = 0, "a goroutine is runnable"
+			// (a lookup's select wakes on its fan-out ticker and parks again: a surplus token is judged by
+			// how long it outlives every attempt, not by an unbroken run of parked snapshots)
+			if l := len(w.r.maxConcurrent); !heldSince.IsZero() && (l != heldL || s.exch >= l) {
+				heldSince = time.Time{}
+			}
 			continue
 		}
 		L := len(w.r.maxConcurrent)
@@ -660,6 +708,13 @@ func (w *vkLKWorld) settle() error {
 		switch {
 		case s.exch != L:
 			streak, why = 0, fmt.Sprintf("exchange readers %d != upstream slots %d", s.exch, L)
+			if s.exch < L && (heldSince.IsZero() || L != heldL) {
+				heldSince, heldL = time.Now(), L
+			} else if s.exch < L && time.Since(heldSince) > vkLKLeakHold {
+				return &vkLKSlotLeak{fmt.Sprintf("%d upstream-concurrency token(s) stayed taken for %v while only %d attempt(s) were reading from an authority and nothing else was running (%s)", L, vkLKLeakHold, s.exch, s.sig)}
+			} else if s.exch > L {
+				heldSince = time.Time{}
+			}
 			continue
 		case s.exch == main+occ:
 		case s.exch == occ && main > 0:
